@@ -338,8 +338,12 @@ def r4(ctx):
             gts = [e for e in ps.effects if e[0] == "store" and util.const_key(e[1]) == "GT"]
             if gts:
                 v = gts[-1][2]
-                if isinstance(v, ast.Call) and u(v.func) == "tuple" and len(v.args) == 1 and isinstance(v.args[0], ast.Call) and isinstance(v.args[0].func, ast.Attribute) and v.args[0].func.attr == "as_vector":
-                    X = u(v.args[0].func.value)
+                # tuple(X.as_vector()) or tuple(sorted(X.as_vector())): the alleles of genotype X in some order
+                inner_ = v.args[0] if isinstance(v, ast.Call) and u(v.func) in ("tuple", "list", "sorted") and len(v.args) == 1 else None
+                if isinstance(inner_, ast.Call) and u(inner_.func) == "sorted" and len(inner_.args) == 1:
+                    inner_ = inner_.args[0]
+                if isinstance(inner_, ast.Call) and isinstance(inner_.func, ast.Attribute) and inner_.func.attr == "as_vector":
+                    X = u(inner_.func.value)
                 else:
                     undecided = "GT is stored as %s" % u(v)[:60]
                     continue
